@@ -15,6 +15,7 @@ RULE = ("For a base search (structure, pattern, atol) the match set of the real 
         "renaming, with the match sets recorded for transformed inputs: whole structure shifted by a random vector "
         "and wrapped; atoms permuted; pattern rigidly rotated+translated; every valid hint class (both axis points, "
         "+orientation point, exactly one axis point under either keyword incl. index 0, orientation point alone); "
+        "hint triples whose orientation atom is only 1e-4..1e-3 A off the axis, on exact (noise-free) copies; "
         "other RNG seeds and stubbed choice schedules; a x b x c supercells (each clear unit-cell group must appear "
         "exactly a*b*c times). A group is compared only if it is clear: the proper Kabsch fit of the pattern onto the "
         "positions returned for it has max residual <= 0.12*atol in the run that reported it; other groups are gray. "
@@ -51,6 +52,9 @@ def cases(tier, seed):
         out.append({"kind": "synthetic", "s": int(rng.integers(1 << 30)), "cell": cell_cls, "pattern": patterns.CLASSES[(j // 2) % len(patterns.CLASSES)],
                     "atol": [0.05, 0.2, 0.01, 0.5][(j // 3) % 4], "dims": [[2, 1, 1], [1, 2, 1], [1, 1, 2], [2, 2, 1], [1, 3, 2], [2, 1, 3]][j % 6]})
     out.append({"kind": "pinned_hint_case", "s": 0})
+    for j in range(36 if tier == "quick" else 3000):
+        out.append({"kind": "near_degenerate_hints", "s": int(rng.integers(1 << 30)), "cell": ["ortho", "tri+-+", "general_tri", "tri--+"][j % 4],
+                    "atol": [0.05, 0.2, 0.01][j % 3]})
     reps = 1 if tier == "quick" else 6
     for rep in range(reps):
         for k, (sp, pp, atol) in enumerate(real_pairs()):
@@ -278,6 +282,39 @@ def run_case(case, ctx):
             if len(S) <= 14:
                 ctx.sample({"kind": "synthetic", "case": {k: case[k] for k in ("cell", "pattern", "atol", "dims")}, "n_atoms": len(S), "clear_base_matches": nclear})
         return
+    if case["kind"] == "near_degenerate_hints":
+        # an orientation atom that is only just off the axis (1e-4..1e-3 A) still defines the roll about the axis; on
+        # EXACT copies (no noise to amplify) every such hint triple must give the matches of the unhinted search
+        L = rng.uniform(2.4, 3.6)
+        t = rng.uniform(0.9, L - 0.9)
+        eps = 10 ** rng.uniform(-4, -3)
+        pos = np.array([[0, 0, 0], [L, 0, 0], [t, eps, 0], [rng.uniform(0.3, L - 0.3), rng.uniform(1.0, 1.6), rng.uniform(-0.4, 0.4)],
+                        [rng.uniform(0.3, L - 0.3), rng.uniform(-0.5, 0.5), rng.uniform(1.1, 1.7)]], float)
+        pos = pos.dot(G.random_rotation(rng).T) + rng.uniform(-2, 2, 3)
+        pat = {"cls": "near_collinear5", "elements": ["C", "N", "O", "S", "Cl"], "positions": pos, "chiral": True, "continuous_symmetry": None, "frame": "random"}
+        atol = case["atol"]
+        built = planted.build(rng, pat, case["cell"], atol, n_copies=3, crossings=[int(x) for x in rng.integers(0, 4, 3)], poses=["random"] * 3,
+                              decoys=[], n_bystanders=4, n_distractors=2, perturb=0.0)
+        S, P = built["atoms"], patterns.to_atoms(pat)
+        w = {"kind": case["kind"], "cell": np.round(built["cell"], 5).tolist(), "atol": atol, "pattern_elements": pat["elements"],
+             "pattern_positions": pos.tolist(), "orientation_atom_off_axis_by": eps, "planted": built["planted"],
+             "structure_elements": list(S.elements), "structure_positions": np.asarray(S.positions, float).tolist()}
+        FOUND_AS.clear()
+        base, _, _, exc = run_search(S, P, atol, seed=case["s"])
+        if exc is not None or not base:
+            st.count("near_degenerate_base_unusable")
+            return
+        for hints in ((0, 1, 2), (1, 0, 2), (0, 2, 1), (2, 0, 1), (1, 2, 0), (2, 1, 0)):
+            r, _, _, exc = run_search(S, P, atol, hints=hints, seed=case["s"])
+            if exc is not None:
+                ctx.fail("search with the hints %s (orientation atom %.2g A off the axis) raised %s" % (list(hints), eps, type(exc).__name__), witness=dict(w, hints=list(hints)))
+                continue
+            compare(ctx, st, base, r, "hints %s with an orientation atom %.2g A off the axis, exact copies" % (list(hints), eps), dict(w, hints=list(hints)),
+                    hints=hints, atol=atol, found_as=dict(FOUND_AS))
+            st.count("near_degenerate_hint_searches")
+        st.count("near_degenerate_base_matches", len(base))
+        ctx.nontrivial([case["kind"], case["s"]])
+        return
     if case["kind"] == "pinned_hint_case":
         import json
         import os
@@ -326,6 +363,8 @@ def requirements(stats, tier):
         need.append("fewer than 4 real structure/pattern pairs with clear matches: %s" % sorted(stats.sets.get("real_pair_with_clear_matches", [])))
     if stats.get("base_clear_groups") < (300 if tier == "quick" else 20000):
         need.append("too few clear base matches: %d" % stats.get("base_clear_groups"))
+    if stats.get("near_degenerate_hint_searches") < (150 if tier == "quick" else 12000):
+        need.append("hint triples with a barely off-axis orientation atom on exact copies: %d searches" % stats.get("near_degenerate_hint_searches"))
     if stats.nseen("synthetic_cell_class") < len(planted.CELL_CLASSES):
         need.append("not all cell classes observed")
     return need
